@@ -139,3 +139,24 @@ Theorem C01_nullable_examples :
   jvalid (conv true o_example) (VObj [([97]%N, VStr); ([98]%N, VNull)]) = true.
 Proof. exact nullable_examples. Qed.
 Print Assumptions C01_nullable_examples.
+
+(* generation settings.  The alphabet of generated header / cookie values respects every codec except ascii ... *)
+Theorem C01_header_alphabet_codec_partial : forall allow_x00 cd c,
+  cd <> CodecAscii -> header_char_ok allow_x00 c = true -> codec_ok cd c = true.
+Proof. exact header_codec_partial. Qed.
+Print Assumptions C01_header_alphabet_codec_partial.
+
+Theorem C01_header_alphabet_codec_refuted : exists c, header_char_ok false c = true /\ codec_ok CodecAscii c = false.
+Proof. exists 200%N. exact header_codec_refuted. Qed.
+Print Assumptions C01_header_alphabet_codec_refuted.
+
+(* ... and the strategy caches hand out the strategy that was requested only while every parameter is always asked for with the
+   same settings (the settings are not part of the cache key) *)
+Theorem C01_strategy_cache_partial : forall calls c, consistent_calls c calls = true -> run_calls c calls = map snd calls.
+Proof. exact cache_consistent. Qed.
+Print Assumptions C01_strategy_cache_partial.
+
+Theorem C01_strategy_cache_refuted : exists calls,
+  run_calls [] calls <> map snd calls /\ nth 1 (run_calls [] calls) (false, CodecAscii) = (true, CodecUtf8).
+Proof. exists calls_two. exact cache_refuted. Qed.
+Print Assumptions C01_strategy_cache_refuted.
